@@ -81,11 +81,12 @@ type Exec struct {
 	nameCount map[string]int
 	pendingRegions []modRegion
 	freeOf    map[*Contract]map[string]freeBinding
+	meaningDone map[*ssa.Function]bool
 }
 
 func newExec(w *World, specs *SpecDB) *Exec {
 	return &Exec{w: w, specs: specs, notes: map[string]bool{}, abstract: map[string]bool{}, assumed: map[string]bool{}, inlined: map[string]bool{},
-		cloEnv: map[*Term]*Closure{}, nameCount: map[string]int{}, freeOf: map[*Contract]map[string]freeBinding{}, fnIDs: map[*ssa.Function]int{}, fnByID: []*ssa.Function{nil}}
+		cloEnv: map[*Term]*Closure{}, nameCount: map[string]int{}, freeOf: map[*Contract]map[string]freeBinding{}, meaningDone: map[*ssa.Function]bool{}, fnIDs: map[*ssa.Function]int{}, fnByID: []*ssa.Function{nil}}
 }
 
 func (x *Exec) fnID(fn *ssa.Function) int {
@@ -166,6 +167,12 @@ func shortFile(f string) string {
 // well-formedness assumptions on values read from memory / received from outside
 
 func (x *Exec) wf(st *State, t *Term, typ types.Type) *Term {
+	return wfBound(st.alloc, t, typ)
+}
+
+func wfBound(alloc *Term, t *Term, typ types.Type) *Term {
+	st := &State{alloc: alloc}
+	var x *Exec
 	typ = types.Unalias(typ)
 	if isTimeTime(typ) {
 		return Ge(t, Int(0))
@@ -215,7 +222,12 @@ func (x *Exec) get(fr *Frame, st *State, v ssa.Value) Value {
 	case *ssa.Const:
 		return Value{T: x.constTerm(v)}
 	case *ssa.Function:
-		return Value{T: Mk(sortFn, Int(int64(x.fnID(v))), Int(0)), Clo: &Closure{Fn: v}}
+		ft := Mk(sortFn, Int(int64(x.fnID(v))), Int(0))
+		if len(x.specs.fnTypes) > 0 && len(v.Blocks) > 0 && x.dry == 0 && !x.meaningDone[v] {
+			x.meaningDone[v] = true
+			x.closureMeaning(st, fr, v, &Closure{Fn: v}, ft)
+		}
+		return Value{T: ft, Clo: &Closure{Fn: v}}
 	case *ssa.Global:
 		return Value{T: x.globalRef(v)}
 	case *ssa.Builtin:
@@ -346,7 +358,10 @@ func (x *Exec) iteValue(c *Term, a, b Value) Value {
 		}
 		unsup("merge of non-first-class values")
 	}
-	out := Value{T: Ite(c, a.T, b.T)}
+	if a.Local != b.Local {
+		unsup("merge of pointers to different local variables")
+	}
+	out := Value{T: Ite(c, a.T, b.T), Local: a.Local}
 	if a.Clo != nil && b.Clo != nil && a.Clo == b.Clo {
 		out.Clo = a.Clo
 	}
@@ -488,6 +503,10 @@ func (x *Exec) enterLoop(fr *Frame, b *ssa.BasicBlock, loop *LoopInfo, edges []e
 	}
 	sort.Strings(ws)
 	preAlloc := st.alloc
+	if writes["alloc"] {
+		st.alloc = Fresh("alloc_loop", "Int")
+		x.assume(st, Ge(st.alloc, preAlloc))
+	}
 	for _, k := range ws {
 		switch {
 		case strings.HasPrefix(k, "ghost:"):
@@ -495,12 +514,8 @@ func (x *Exec) enterLoop(fr *Frame, b *ssa.BasicBlock, loop *LoopInfo, edges []e
 			st.ghost[g] = Fresh("G_"+g+"_loop", ghostSorts[g])
 		case k == "alloc":
 		default:
-			st.heap[k] = Fresh(k+"_loop", heapSorts[k])
+			st.heap[k] = freshHeap(st, k, "loop")
 		}
-	}
-	if writes["alloc"] {
-		st.alloc = Fresh("alloc_loop", "Int")
-		x.assume(st, Ge(st.alloc, preAlloc))
 	}
 	// assume the invariants for an arbitrary iteration
 	var assumed []*Term
@@ -783,7 +798,13 @@ func (x *Exec) step(fr *Frame, st *State, ins ssa.Instruction) {
 	switch ins := ins.(type) {
 	case *ssa.DebugRef:
 	case *ssa.Alloc:
-		fr.regs[ins] = x.doAlloc(st, ins.Type().Underlying().(*types.Pointer).Elem())
+		et := ins.Type().Underlying().(*types.Pointer).Elem()
+		local := ""
+		if _, isArr := et.Underlying().(*types.Array); !ins.Heap && !isArr {
+			// a non-escaping local: only this frame can name it, so it gets private heap arrays
+			local = "L_" + smtName(relName(fr.fn)) + "_" + ins.Name()
+		}
+		fr.regs[ins] = x.doAlloc(st, et, local)
 	case *ssa.FieldAddr:
 		p := x.get(fr, st, ins.X)
 		stT := ins.X.Type().Underlying().(*types.Pointer).Elem()
@@ -853,13 +874,17 @@ func (x *Exec) step(fr *Frame, st *State, ins ssa.Instruction) {
 			env = Fresh("env_"+fn.Name(), "Int")
 			x.cloEnv[env] = clo
 		}
-		fr.regs[ins] = Value{T: Mk(sortFn, Int(int64(x.fnID(fn))), env), Clo: clo}
+		ft := Mk(sortFn, Int(int64(x.fnID(fn))), env)
+		fr.regs[ins] = Value{T: ft, Clo: clo}
+		if len(x.specs.fnTypes) > 0 {
+			x.closureMeaning(st, fr, fn, clo, ft)
+		}
 	case *ssa.MakeSlice:
 		n := x.get(fr, st, ins.Len).T
 		c := x.get(fr, st, ins.Cap).T
 		et := ins.Type().Underlying().(*types.Slice).Elem()
 		arr := x.newRef(st)
-		key, hs := elemHeapKey(sortOf(et))
+		key, hs := elemHeapKey(et)
 		h := st.H(key, hs)
 		st.setH(key, Store(h, arr, ConstArray(arraySort("Int", sortOf(et)), zeroTerm(et))))
 		fr.regs[ins] = Value{T: Mk(sortSlice, arr, Int(0), n, c)}
@@ -898,6 +923,9 @@ func (x *Exec) step(fr *Frame, st *State, ins ssa.Instruction) {
 
 // firstClass returns the SMT term of v, failing if it has none.
 func (x *Exec) firstClass(v Value, typ types.Type) *Term {
+	if v.Local != "" {
+		unsup("address of non-escaping local %s escapes", v.Local)
+	}
 	if v.T != nil {
 		return v.T
 	}
@@ -908,23 +936,23 @@ func (x *Exec) firstClass(v Value, typ types.Type) *Term {
 	return nil
 }
 
-func (x *Exec) doAlloc(st *State, elemT types.Type) Value {
+func (x *Exec) doAlloc(st *State, elemT types.Type, local string) Value {
 	r := x.newRef(st)
 	if isStruct(elemT) {
 		su := elemT.Underlying().(*types.Struct)
 		for i := 0; i < su.NumFields(); i++ {
-			x.writeLV(st, x.fieldLV(Value{T: r}, elemT, i), zeroTerm(su.Field(i).Type()))
+			x.writeLV(st, x.fieldLV(Value{T: r, Local: local}, elemT, i), zeroTerm(su.Field(i).Type()))
 		}
-		return Value{T: r}
+		return Value{T: r, Local: local}
 	}
-	lv := x.derefLV(Value{T: r}, elemT)
+	lv := x.derefLV(Value{T: r, Local: local}, elemT)
 	if at, ok := elemT.Underlying().(*types.Array); ok {
 		h := st.H(lv.Key, lv.Sort)
 		st.setH(lv.Key, Store(h, r, ConstArray(arraySort("Int", sortOf(at.Elem())), zeroTerm(at.Elem()))))
 		return Value{T: r}
 	}
 	x.writeLV(st, lv, zeroTerm(elemT))
-	return Value{T: r}
+	return Value{T: r, Local: local}
 }
 
 func (x *Exec) doIndexAddr(fr *Frame, st *State, ins *ssa.IndexAddr) Value {
@@ -941,7 +969,7 @@ func (x *Exec) doIndexAddr(fr *Frame, st *State, ins *ssa.IndexAddr) Value {
 			unsup("index into array inside struct")
 		}
 		x.nilCheck(fr, st, base.T, ins, "index of nil array pointer")
-		key, sort := elemHeapKey(sortOf(at.Elem()))
+		key, sort := elemHeapKey(at.Elem())
 		heapSorts[key] = sort
 		return Value{LV: &LValue{Key: key, Sort: sort, Ref: base.T, Idx: i, Typ: at.Elem()}}
 	}
